@@ -26,7 +26,7 @@ RULE = ("cases = (dataset, 1-2 free variables, universal variable with non-empty
         "rows are compared with the universally quantified Python statement, with caching enabled and disabled. "
         "Non-trivial = |U| >= 2, c mentions both u and a free variable, and the result is a non-empty proper subset of the "
         "free product; distinct = canonical JSON.")
-BUDGET = {"quick": (4, 400), "thorough": (16, 4000)}
+BUDGET = {"quick": (4, 800), "thorough": (16, 6000)}
 ASSUMPTIONS = ["the universal variable's domain is non-empty (the statement excludes the empty case)"]
 
 
